@@ -161,7 +161,11 @@ class TaskControl(object):
                 the_task = self.tasks[f_name]
 
                 # Initialize options for the task
-                seq = the_task.init_options(seq)
+                # (init_options returns None when the options were already
+                # initialised: task named twice or matched by a pattern before)
+                rest = the_task.init_options(seq)
+                if rest is not None:
+                    seq = rest
 
                 # if task takes positional parameters set all as pos_arg_val
                 if the_task.pos_arg is not None:
